@@ -205,17 +205,21 @@ def check_late_declared(ctx, only=None):
             ident = [where, route]
             if only is not None and only != ident:
                 continue
-            s = cc.Schema(dynamic=True)
-            s.pool = cc.Schema(dynamic=True)
-            s.keep = cc.IntField(default=1)
-            cfg = s()
-            cfg.workers = "adhoc"
-            cfg.pool.size = "adhoc-too"
-            s.workers = cc.IntField(min=1, max=16, default=2)
-            s.pool.size = cc.IntField(min=1, max=16, default=3)
+            case = {"late_declared": ident, "job": "late-declared"}
+            try:
+                s = cc.Schema(dynamic=True)
+                s.pool = cc.Schema(dynamic=True)
+                s.keep = cc.IntField(default=1)
+                cfg = s()
+                cfg.workers = "adhoc"
+                cfg.pool.size = "adhoc-too"
+                s.workers = cc.IntField(min=1, max=16, default=2)
+                s.pool.size = cc.IntField(min=1, max=16, default=3)
+            except Exception as exc:  # noqa
+                ctx.violation("C16|late-declared|%s|setup-raises" % where, "declaring a dynamic schema with an (empty) dynamic section, storing ad-hoc values and declaring the keys afterwards raised %r" % (exc,), case)
+                continue
             path = "workers" if where == "root" else "pool.size"
             opt = "--workers" if where == "root" else "--pool-size"
-            case = {"late_declared": ident, "job": "late-declared"}
             ctx.transitions += 1
             try:
                 if route.startswith("cmdline"):
